@@ -4,8 +4,9 @@
    "repaired" = the behaviour after the proposed fixes (build/proposed_fixes/C07_F17_*.diff);
    "as_found" = the behaviour of the unpatched code, kept to state the refutation. *)
 From Coq Require Import ZArith QArith Qround List Bool.
-Require Import SC3.model.KProg SC3.model.KNrt SC3.model.KRt.
-Require Import SC3.proofs.C05_frame SC3.proofs.C07_stamp SC3.proofs.C07_runs SC3.proofs.C07_props.
+Require Import SC3.model.Osc SC3.proofs.C06_roundtrip.
+Require Import SC3.model.KProg SC3.model.KNrt SC3.model.KRt SC3.model.KScore.
+Require Import SC3.proofs.C05_frame SC3.proofs.C07_stamp SC3.proofs.C07_runs SC3.proofs.C07_props SC3.proofs.C07_raw.
 Import ListNotations.
 Open Scope Q_scope.
 
@@ -121,3 +122,72 @@ Proof. vm_compute. split; reflexivity. Qed.
 
 Print Assumptions stamp_is_logical_plus_latency_rt.
 Print Assumptions score_ends_with_tail_marker.
+
+(* ---- the binary form over the PROVED encoder of C06 (model/Osc.v, model/KScore.v) -------------
+   FULL STRENGTH.  [score_raw_osc nc sc] is OscScore.raw: for every entry of the score, in (time,
+   count) order, int32 big-endian length ++ build_pkt (the _build_bundle model of C06) of the
+   stamped bundle; it is an error value when the real code would raise (a timetag or an int outside
+   its width, a datagram above 2^32 - 1 bytes).  Whenever the binary form exists:
+   (a) it is that concatenation, and it is the model's raw form of KNrt instantiated with C06's encoder;
+   (b) UNIQUE DECODABILITY: the independent length-prefix reader [split_raw_top] (no OSC knowledge)
+       returns exactly the list of bundle encodings, one per entry of the list view, in the same order;
+   (c) each chunk is the encoding of the corresponding list-view entry and parses back
+       (C06's bundle_roundtrip, parse_bundle_top) to the bundle of the list view: the same timetag,
+       and, recursively, the same elements ([expect]); that timetag is int(seconds * 2^32).
+   So the list view and the binary form are the same score. *)
+Theorem raw_is_concat_of_prefixed_encodings : forall nc qk p fuel raw,
+  let sc := n_score (nrt_run qk p fuel) in
+  score_raw_osc nc sc = Ok raw ->
+  exists ds,
+    score_encs nc sc = Ok ds /\
+    raw = concat (map prefixed ds) /\
+    raw = score_raw (osc_enc nc) sc /\
+    split_raw_top raw = Some ds /\
+    Forall2 (fun s d => build_pkt nc (to_arg (s_b s)) = Ok d /\
+               exists cs, parse_bundle_top d = Ok (PBundle (top_tag (s_b s)) cs) /\
+                          expect nc (to_arg (s_b s)) (PBundle (top_tag (s_b s)) cs) /\
+                          top_tag (s_b s) = Qtrunc (s_time s * two32)) sc ds.
+Proof. exact raw_full. Qed.
+
+(* the splitter inverts the concatenation for ANY list of chunks below 2^32 bytes (no score involved) *)
+Theorem raw_split_inverse : forall ds, Forall (fun d => (zlen d < 4294967296)%Z) ds ->
+  split_raw_top (concat (map prefixed ds)) = Some ds.
+Proof. exact split_top. Qed.
+
+(* order, on the TIMETAGS (Z) the encoded bundles carry (= what parse_bundle_top reads, by the
+   theorem above): non-decreasing along the file, and entries due at equal seconds are in send order *)
+Theorem score_sorted_stable_timetags : forall qk p fuel,
+  Sorted.StronglySorted (fun a b => (top_tag (s_b a) <= top_tag (s_b b))%Z /\
+                                    (s_time a == s_time b -> (s_cnt a < s_cnt b)%nat))
+                        (n_score (nrt_run qk p fuel)).
+Proof. exact tags_sorted. Qed.
+
+(* times, on the timetags: every bundle sent is in the finished score with timetag
+   int((latency + logical time) * 2^32) (latency alone outside routines), and the finished score
+   holds nothing else but the root-node bundle (timetag 0) and the tail marker *)
+Theorem score_times_exact_timetags : forall qk p fuel,
+  let st := nrt_loop qk p fuel (nrt_main qk p) in
+  (forall o T lat es sb, In (EvSend o T lat es (Some sb)) (n_log st) ->
+     exists s, In s (n_score (nrt_run qk p fuel)) /\ s_b s = sb /\
+               top_tag sb = Qtrunc ((lat_val lat + match o with Some _ => T | None => 0 end) * two32)) /\
+  (forall s, In s (n_score (nrt_run qk p fuel)) ->
+     (top_tag (s_b s) = 0%Z /\ s_cnt s = 0%nat /\ s_b s = SBundle false 0 0 [SMsg gnew_msg]) \/
+     (exists t, s_b s = SBundle false t (Qtrunc (s_time s * two32)) [SMsg cset_msg] /\ s_cnt s = n_scnt st) \/
+     exists o T lat es, In (EvSend o T lat es (Some (s_b s))) (n_log st) /\
+        top_tag (s_b s) = Qtrunc ((lat_val lat + match o with Some _ => T | None => 0 end) * two32)).
+Proof. exact tags_exact. Qed.
+
+(* non-vacuity: the binary form of the example score exists (240 bytes), the splitter cuts it into
+   the five encodings (48, 32, 68, 32, 40 bytes -- the sizes the real library produces) and the
+   timetags in file order are 0, 1/4, 1/2, 3/4, 3/4 seconds *)
+Example c07_raw_example :
+  let p := mkProg [] [[SendBundle (Some (1#2)) [EMsg 3; EBundle (Some (3#4)) [EMsg 4]]; Yield (1#4); Send None 5]]
+                  [Play 0 CSystem; Send (Some (3#4)) 9] 0 in
+  match score_raw_osc true (n_score (nrt_run repaired p 10)) with
+  | Ok raw => (length raw, option_map (map (@length Z)) (split_raw_top raw), score_tags (n_score (nrt_run repaired p 10)))
+  | Err _ => (0%nat, None, [])
+  end = (240%nat, Some [48; 32; 68; 32; 40]%nat, [0; 1073741824; 2147483648; 3221225472; 3221225472]%Z).
+Proof. vm_compute. reflexivity. Qed.
+
+Print Assumptions raw_is_concat_of_prefixed_encodings.
+Print Assumptions score_times_exact_timetags.
